@@ -2,12 +2,12 @@
 # seedcheck_wt.sh <ID> <k> [tier] : run the check against a scratch worktree of /repo with the seeded change applied
 # (same engine, same harnesses, VP_REPO_DIR=<worktree>), leaving /repo and /verif/evidence untouched. Used when /repo is
 # busy with another run; bin/seedcheck.sh is the apply-to-/repo variant.
-id=$1; k=$2; tier=${3:-quick}; out=/verif/seeded/$id-$k; wt=/tmp/wt/$id; vs=/tmp/vs/$id-$k
+id=$1; k=$2; tier=${3:-quick}; cid=${CHECK_ID:-$id}; out=/verif/seeded/$id-$k; wt=/tmp/wt/$id; vs=/tmp/vs/$id-$k
 [ -d $wt ] || git -C /repo worktree add --detach $wt HEAD -q || exit 2
 mkdir -p /tmp/vs; rsync -a --exclude .git --exclude seeded --exclude out --exclude evidence --exclude design_probes /verif/ $vs/
 mkdir -p $vs/evidence
 cd $wt && git checkout -q -- . && git apply $out/patch.diff || exit 2
-VP_REPO_DIR=$wt $vs/bin/vcheck $id --tier $tier > $out/check_$tier.log 2>&1; rc=$?
+VP_REPO_DIR=$wt $vs/bin/vcheck $cid --tier $tier > $out/check_${tier}${CHECK_ID:+_$CHECK_ID}.log 2>&1; rc=$?
 git checkout -q -- .
 rm -rf $vs
-echo "$id-$k exit=$rc"; grep -E "^(VIOLATION|KNOWN|INCONCLUSIVE|ENCODER|property=)" $out/check_$tier.log | cut -c1-300 | head -6
+echo "$id-$k exit=$rc"; grep -E "^(VIOLATION|KNOWN|INCONCLUSIVE|ENCODER|property=)" $out/check_${tier}${CHECK_ID:+_$CHECK_ID}.log | cut -c1-300 | head -6
